@@ -174,6 +174,7 @@ type reference struct {
 	values   map[string][]string // sorted
 	ranges   map[labels.Label]index.Range
 	symbols  []string
+	symRefs  []uint32 // reference of symbols[i]
 	lastName string // name/value of the last entry of the postings offset table
 	lastVal  string
 }
@@ -213,13 +214,39 @@ func openReference(path string) (*reference, error) {
 	if it.Err() != nil {
 		return nil, it.Err()
 	}
-	if len(ref.names) > 0 {
-		ref.lastName = ref.names[len(ref.names)-1]
-		vs := ref.values[ref.lastName]
-		ref.lastVal = vs[len(vs)-1]
+	// The last entry of the postings offset table in file order (format v1 tables are not sorted).
+	toc, err := index.NewTOCFromByteSlice(byteSlice(raw))
+	if err != nil {
+		return nil, err
+	}
+	if err := index.ReadPostingsOffsetTable(byteSlice(raw), toc.PostingsTable, func(name, value []byte, _ uint64, _ int) error {
+		ref.lastName, ref.lastVal = string(name), string(value)
+		return nil
+	}); err != nil {
+		return nil, err
+	}
+	// Symbol references: sequential numbers in format v2, byte offsets into the index in format v1.
+	syms, err := index.NewSymbols(byteSlice(raw), ir.Version(), int(toc.Symbols))
+	if err != nil {
+		return nil, err
+	}
+	for i, s := range ref.symbols {
+		o, err := syms.ReverseLookup(s)
+		if err != nil {
+			return nil, err
+		}
+		if ir.Version() != index.FormatV1 && int(o) != i {
+			return nil, fmt.Errorf("oracle: symbol %q has ref %d, expected %d", s, o, i)
+		}
+		ref.symRefs = append(ref.symRefs, o)
 	}
 	return ref, nil
 }
+
+type byteSlice []byte
+
+func (b byteSlice) Len() int                    { return len(b) }
+func (b byteSlice) Range(start, end int) []byte { return b[start:end] }
 
 func (r *reference) close() { _ = r.ir.Close() }
 
